@@ -207,7 +207,7 @@ StunDataInd     == StunHdr \o AddrAttr("xpa", 32767) \o Attr("data", 32767)
 TurnChannelData == << Tg(<<"cd">>, "channel", 2, 32768), Ln(<<"cd">>, "length", 2, "data", 1, 0), Vr(<<"cd">>, "data"),
                       Pd(<<"cd">>, "cdpad", 4) >>
 
-\* RFC 4571 style framing used on TURN/TCP and ICE-TCP: 16-bit length then one message
+\* RFC 4571 framing used on ICE-TCP: 16-bit length then one message
 TcpFrame(inner) ==
   << Ln(<<"frame">>, "framelen", 2, "framebody", 1, 0) >> \o
   [i \in 1..Len(inner) |-> [inner[i] EXCEPT !.g = <<"frame", "framebody">> \o inner[i].g]]
@@ -491,8 +491,7 @@ AllTemplates == <<
   T("stun.binding_req", StunBindingReq), T("stun.binding_ok4", StunBindingOk4), T("stun.binding_ok6", StunBindingOk6),
   T("stun.alloc_ok", StunAllocOk), T("stun.error401", StunError401), T("stun.data_ind", StunDataInd),
   T("turn.channeldata", TurnChannelData),
-  T("tcp.stun_binding_req", TcpFrame(StunBindingReq)), T("tcp.stun_data_ind", TcpFrame(StunDataInd)),
-  T("tcp.channeldata", TcpFrame(TurnChannelData)),
+  T("tcp.stun_binding_req", TcpFrame(StunBindingReq)),
   T("dtls.record2", DtlsRecord2), T("dtls.hsmsg", DtlsHsMsg), T("dtls.clienthello", DtlsClientHello),
   T("dtls.serverhello", DtlsServerHello), T("dtls.hvr", DtlsHvr), T("dtls.ske", DtlsSke), T("dtls.cert", DtlsCert),
   T("dtls.cke", DtlsCke), T("dtls.finished", DtlsFinished),
